@@ -132,9 +132,14 @@ func checkStream(c *mon.C, shapes []gen.Shape, side ref.Side, nplans int) bool {
 				}
 				c.Count(1)
 				ch := xport.NewChunker(stream, plan)
+				// the kind of io.Reader the library is handed varies too (second buffer choice only)
+				o.Wrap = ""
+				if bi == 1 {
+					o.Wrap = drive.Wraps[(c.I+ei+pi)%len(drive.Wraps)]
+				}
 				obs := drive.Run(ch, o)
 				det := func() map[string]interface{} {
-					return map[string]interface{}{"frames": gen.ShapesKey(shapes), "side": side, "entry": entry, "plan": plan.String(), "buf": o.Buf,
+					return map[string]interface{}{"frames": gen.ShapesKey(shapes), "side": side, "entry": entry, "plan": plan.String(), "buf": o.Buf, "source": o.Wrap,
 						"discard": fmt.Sprint(o.Discard), "got": tail(drive.EventStrings(obs.Events)), "want": tail(drive.EventStrings(want)), "err": fmt.Sprint(obs.Err), "stream_len": len(stream)}
 				}
 				if obs.Spin {
